@@ -102,6 +102,7 @@ func trunc(s string, n int) string {
 var c11Lens = []int{-5, -1, 0, 1, 5, 12, 13, 14, 15, 16, 23, 64, 450, 1000}
 
 func c11(c *Ctx) {
+	c11Wire(c)
 	var cases []Case
 	// boundary corpus: separators at the start, only separators, exact multiples
 	for _, n := range []int{0, 13, 14, 23} {
@@ -293,6 +294,87 @@ func c11Commands(c *Ctx) {
 		}
 	}
 	c.RunCases(cases)
+}
+
+// c11Wire: the same claim where the server sees it. The commands are issued on a real connection and the lines that
+// ARRIVE are unwrapped and judged by the split Spec: every piece but the last ends in the marker, the pieces rejoin to
+// the text, each is within SplitLen - also for SplitLen above the RFC's 512 and for long targets, i.e. for outgoing
+// lines well beyond 510 bytes (nothing between the command and the socket may cut, wrap or re-split a piece).
+func c11Wire(c *Ctx) {
+	for k := 0; k < c.Pick(6, 40); k++ {
+		n := []int{450, 500, 600, 1000, 64, 497}[k%6]
+		sess, err := newSession(func(cfg *client.Config) { cfg.SplitLen = n }, nil)
+		if err != nil {
+			c.Res.Inconclusive++
+			continue
+		}
+		for j := 0; j < 6; j++ {
+			var target string
+			switch c.R.N(3) {
+			case 0:
+				target = "#" + c.R.Bytes(c.R.Range(1, 20), "abcXYZ-_")
+			case 1:
+				target = c.R.Bytes(c.R.Range(50, 70), "n")
+			default:
+				target = c.R.Bytes(c.R.Range(300, 520), "abc,")
+			}
+			text := c11Text(c.R, []int{n - 1, n, n + 1, 2*n + 3, 3 * n, c.R.N(4 * n)}[c.R.N(6)])
+			if strings.ContainsAny(text, "\r\n\x00") || strings.ContainsAny(target, "\r\n ") {
+				continue
+			}
+			m := c.R.Pick("Privmsg", "Notice", "Action")
+			verb, open, shut := "PRIVMSG", "", ""
+			sess.srv.WaitLines(2, 5*time.Second) // the registration lines
+			from := len(sess.srv.Lines())
+			switch m {
+			case "Privmsg":
+				sess.conn.Privmsg(target, text)
+			case "Notice":
+				verb = "NOTICE"
+				sess.conn.Notice(target, text)
+			case "Action":
+				open, shut = "\x01ACTION ", "\x01"
+				sess.conn.Action(target, text)
+			}
+			mark := fmt.Sprintf("PING :c11-%d-%d", k, j)
+			sess.conn.Raw(mark)
+			end := sess.srv.WaitLine(from, func(l string) bool { return l == mark }, 10*time.Second)
+			desc := fmt.Sprintf("%s(target of %d bytes, text of %d bytes %q) SplitLen=%d, as it arrives at the server", m, len(target), len(text), trunc(text, 30), n)
+			rp := map[string]interface{}{"op": "command-on-the-wire", "method": m, "target_hex": drv.H(target), "text_hex": drv.H(text), "splitlen": n}
+			if end < 0 {
+				c.Res.Inconclusive++
+				break
+			}
+			lines := sess.srv.Lines()[from:end]
+			prefix := verb + " " + target + " :" + open
+			var pieces []string
+			ok := true
+			for _, l := range lines {
+				if !strings.HasPrefix(l, prefix) || !strings.HasSuffix(l, shut) || len(l) < len(prefix)+len(shut) {
+					ok = false
+					break
+				}
+				pieces = append(pieces, l[len(prefix):len(l)-len(shut)])
+			}
+			c.Res.Traces++
+			tag := ""
+			if len(lines) > 1 {
+				tag = "wire/" + m + "/multi"
+				for _, l := range lines {
+					if len(l) > 510 {
+						tag = "wire/" + m + "/multi/line>510"
+					}
+				}
+			}
+			sp := "spec11 " + itoa(n) + " " + drv.H(text) + " " + drv.L(pieces)
+			if !ok || len(lines) == 0 {
+				sp = "spec11 " + itoa(n) + " " + drv.H(text) + " _"
+				desc += fmt.Sprintf(": a line arrived that is not `%s<piece>%s`: %q", trunc(prefix, 40), shut, lines)
+			}
+			c.RunCases([]Case{{Desc: desc, Spec: []string{sp}, Tag: tag, Key: desc, Replay: rp}})
+		}
+		sess.close()
+	}
 }
 
 func rep(s string, n int) string {
